@@ -677,9 +677,12 @@ def run_case(spec):
         if stage == 'setmodel':
             ok = N < n
         elif stage == 'placement':
-            pl = list(data.placement)
-            ok = (not connected(N, edges, pl)) or len(set(pl)) != len(pl) or (
-                spec['placement'] == 'greedy' and not connected(N, edges))
+            # trivial placement may fail when [0,n) is not connected; the greedy pass only
+            # when the machine itself is not connected (its component may be too small)
+            if spec['placement'] == 'greedy':
+                ok = not connected(N, edges)
+            else:
+                ok = not connected(N, edges, list(range(n)))
         elif stage in ('layout', 'routing'):
             pl = list(data.placement)
             ok = not connected(N, edges, pl) or len(set(pl)) != len(pl) or \
@@ -693,8 +696,10 @@ def run_case(spec):
         if not ok:
             res['viol'].append((
                 f'unexpected-{raised[1]}-in-{stage}',
-                f'{stage} raised {raised[1]}: {raised[2]} on a connected machine '
-                'with a valid placement', rep({'raised': raised}), True))
+                f'{stage} raised {raised[1]}: {raised[2]} although the machine '
+                + ('is connected' if stage == 'placement' else
+                   'is large enough, connected and the placement valid'),
+                rep({'raised': raised}), True))
         return res
 
     # ---------------- trace -> machine moves
@@ -785,7 +790,7 @@ class CaseTimeout(BaseException):
     pass
 
 
-CASE_TIMEOUT_S = 40
+CASE_TIMEOUT_S = 300
 LOCK_WAIT_S = 900      # wait for the machine-wide bqskit runtime lock (/work/RUNTIME_LOCK.md)
 
 
@@ -799,18 +804,21 @@ def _run_chunk(specs, limit=None):
     old = signal.signal(signal.SIGALRM, on_alarm)
     timeouts = 0
     for s in specs:
-        if timeouts >= 2:      # the tree under test hangs: do not wait for every case
+        if timeouts >= 1:      # the tree under test hangs: do not wait for every case
             out.append({'spec': s, 'skipped': 'earlier cases of this chunk timed out',
                         'viol': [], 'lines': [], 'expect': [], 'stats': {}})
             continue
         try:
             signal.alarm(limit)
+            import time as _t
+            _t0 = _t.time()
             if s.get('pam'):
                 from harness.c09_pam import run_pam_case
                 out.append(run_pam_case(s))
             else:
                 out.append(run_case(s))
             signal.alarm(0)
+            out[-1]['elapsed'] = round(_t.time() - _t0, 2)
         except CaseTimeout:
             timeouts += 1
             out.append({'spec': s, 'timeout': True, 'viol': [], 'lines': [], 'expect': [],
@@ -1078,6 +1086,11 @@ def run(ck: Check):
     import bqskit.compiler  # noqa: F401
     import bqskit.passes  # noqa: F401
     import harness.c09_pam  # noqa: F401
+    # ... and run one small case of each kind here, so that every lazy import and first-use
+    # cache of bqskit/numpy is paid once, before the fork, and not under a case's time limit
+    warm = [sp for sp in par if not sp.get('pam') and sp['n'] <= 3][:1] + \
+        [sp for sp in par if sp.get('pam')][:1]
+    _run_chunk(warm, limit=600)
     ctx = mp.get_context('fork')
     bg = None
     if serial:      # these start their own bqskit runtime; run them beside the pool
@@ -1101,16 +1114,22 @@ def run(ck: Check):
     # a case that ran into its time limit is repeated alone with a long limit: on a loaded
     # machine a slow case is not a hanging pass
     suspects = [i for i, r in enumerate(results) if r.get('timeout')]
-    for i in suspects[:4]:
-        rr = _run_chunk([results[i]['spec']], limit=150)[0]
+    for i in suspects[:2]:
+        rr = _run_chunk([results[i]['spec']], limit=300)[0]
         if rr.get('timeout'):
             rr['viol'] = [(
                 'mapping-pass-does-not-terminate',
-                'a mapping pass did not finish within 150 s on a small case (cases of this '
+                'a mapping pass did not finish within 300 s, twice, on a small case (cases of this '
                 'size take well under a second)', {'spec': rr['spec']}, True)]
         results[i] = rr
-    for i in suspects[4:]:
-        results[i]['skipped'] = 'timed out; not repeated (four other cases were)'
+    for i in suspects[2:]:
+        results[i]['skipped'] = 'timed out; not repeated (two other cases were)'
+    slow = sorted(((r.get('elapsed', 0), r['spec']['n'], r['spec']['N'],
+                    r['spec']['placement'], bool(r['spec'].get('pam')),
+                    r['spec'].get('looping')) for r in results), key=lambda t: -t[0])[:5]
+    ck.coverage['slowest_cases_s'] = [list(t) for t in slow]
+    ck.coverage['timeout_suspects'] = [
+        {k: v for k, v in results[i]['spec'].items() if k != 'edges'} for i in suspects[:5]]
     ck.coverage['phase_s']['workload'] = round(time.time() - t0, 1)
     lines = [ln for r in results for ln in r['lines']]
     replies = ck.driver('route', lines) if lines else []
